@@ -282,6 +282,262 @@ theorem pings_at_ticks (I : Nat) (t0 : Int) (scs : List Script) :
   | closed => rw [hs] at hst; obtain ⟨d, _, h2, _⟩ := hst; omega
   | stopped => rw [hs] at hst; obtain ⟨d, _, h2, _⟩ := hst; omega
 
+/-! ## Session level: keep-alive after `Close` (stream `sessions`)
+
+The sessions' `Close` methods call `*cancelPtr` (structural fact `keepalive.cancelled_from`); the
+model of a closed session's loop is `runCancel … tc` with `tc` the instant of that call.  The
+theorems below say that from `tc` on the loop sends nothing, that everything it still does belongs
+to the one ping that was in flight at `tc` (over by `tc + I/2`), and that nothing at all happens
+after `endAt`; `close_cancels_keepalive` (CloseProps.lean — a module of its own, so that a changed
+`Close` method re-opens that proof only) ties the premise to the code: in both `Close` methods, as
+regenerated from the source, the cancellation precedes every statement that can fail or return. -/
+
+theorem step_tick_le (I T : Nat) (s : St) (sc : Script) : s.tick ≤ (step I T s sc).tick := by
+  rw [step_eq_stepO]
+  unfold stepO
+  cases s.status <;> simp only [] <;> try exact Nat.le_refl _
+  cases observe (pingTimeout I) sc <;> simp only [] <;> try exact Nat.le_succ _
+  split <;> exact Nat.le_succ _
+
+theorem warnsFrom_append (I T : Nat) (a b : List Script) : ∀ s : St,
+    warnsFrom I T s (a ++ b) = warnsFrom I T s a ++ warnsFrom I T (a.foldl (step I T) s) b := by
+  induction a with
+  | nil => intro s; simp [warnsFrom]
+  | cons x t ih => intro s; simp [warnsFrom, ih, List.append_assoc]
+
+theorem warns_snoc (I : Nat) (t0 : Int) (scs : List Script) (sc : Script) :
+    warns I t0 (scs ++ [sc]) = warns I t0 scs ++ warnStep I (threshold t0) (run I t0 scs) sc := by
+  unfold warns
+  rw [warnsFrom_append]
+  simp [warnsFrom, run]
+
+theorem run_tick_le_length (I : Nat) (t0 : Int) (scs : List Script) :
+    (run I t0 scs).tick ≤ scs.length := (pings_at_ticks I t0 scs).2
+
+theorem run_running_tick (I : Nat) (t0 : Int) (scs : List Script)
+    (h : (run I t0 scs).status = .running) : (run I t0 scs).tick = scs.length := by
+  obtain ⟨_, hst⟩ := inv_run I t0 scs
+  rw [h] at hst
+  have : (obsOf I scs).length = scs.length := by simp [obsOf]
+  omega
+
+theorem run_tick_mono (I : Nat) (t0 : Int) (scs : List Script) (sc : Script) :
+    (run I t0 scs).tick ≤ (run I t0 (scs ++ [sc])).tick := by
+  rw [run_snoc]; exact step_tick_le _ _ _ _
+
+theorem pingEnd_succ (I : Nat) (scs : List Script) (k : Nat) :
+    pingEnd I scs (k + 1) = match scs[k]? with
+      | some sc => (k + 1) * I + (observe (pingTimeout I) sc).dur
+      | none => (k + 1) * I := rfl
+
+theorem pingEnd_append_left (I : Nat) (a b : List Script) (k : Nat) (hk : k ≤ a.length) :
+    pingEnd I (a ++ b) k = pingEnd I a k := by
+  cases k with
+  | zero => rfl
+  | succ j =>
+    rw [pingEnd_succ, pingEnd_succ, List.getElem?_append_left (by omega)]
+
+theorem pingEnd_bounds (I : Nat) (scs : List Script) (k : Nat) :
+    k * I ≤ pingEnd I scs k ∧ pingEnd I scs k ≤ k * I + I / 2 := by
+  cases k with
+  | zero => simp [pingEnd]
+  | succ j =>
+    rw [pingEnd_succ]
+    cases scs[j]? with
+    | none => simp only []; omega
+    | some sc =>
+      have := observe_dur_le (pingTimeout I) sc
+      simp only [pingTimeout] at this ⊢
+      omega
+
+theorem pingEnd_mono (I : Nat) (scs : List Script) (j k : Nat) (h : j ≤ k) :
+    pingEnd I scs j ≤ pingEnd I scs k := by
+  rcases Nat.lt_or_eq_of_le h with hlt | heq
+  · have h1 := (pingEnd_bounds I scs j).2
+    have h2 := (pingEnd_bounds I scs k).1
+    have : (j + 1) * I ≤ k * I := Nat.mul_le_mul_right I hlt
+    rw [Nat.add_mul] at this
+    have : I / 2 ≤ I := Nat.div_le_self I 2
+    omega
+  · rw [heq]; exact Nat.le_refl _
+
+theorem endAt_running (I : Nat) (t0 : Int) (scs : List Script) (tc : Nat)
+    (h : (run I t0 (scs.take (ticksBefore I tc))).status = .running) :
+    endAt I t0 scs tc = max tc (pingEnd I (scs.take (ticksBefore I tc))
+      (run I t0 (scs.take (ticksBefore I tc))).tick) := by
+  simp only [endAt, h]
+
+theorem endAt_ended (I : Nat) (t0 : Int) (scs : List Script) (tc : Nat)
+    (h : (run I t0 (scs.take (ticksBefore I tc))).status ≠ .running) :
+    endAt I t0 scs tc = pingEnd I (scs.take (ticksBefore I tc))
+      (run I t0 (scs.take (ticksBefore I tc))).tick := by
+  cases hs : (run I t0 (scs.take (ticksBefore I tc))).status with
+  | running => exact absurd hs h
+  | closed => simp only [endAt, hs]
+  | stopped => simp only [endAt, hs]
+
+theorem pingEnd_le_endAt (I : Nat) (t0 : Int) (scs : List Script) (tc : Nat) :
+    pingEnd I (scs.take (ticksBefore I tc)) (run I t0 (scs.take (ticksBefore I tc))).tick
+      ≤ endAt I t0 scs tc := by
+  by_cases h : (run I t0 (scs.take (ticksBefore I tc))).status = .running
+  · rw [endAt_running I t0 scs tc h]; exact Nat.le_max_right _ _
+  · rw [endAt_ended I t0 scs tc h]; exact Nat.le_refl _
+
+/-- Every WARN record is written at the end of one of the pings the loop has issued. -/
+theorem warns_at_ping_ends (I : Nat) (t0 : Int) (scs : List Script) :
+    ∀ w ∈ warns I t0 scs, ∃ k, 1 ≤ k ∧ k ≤ (run I t0 scs).tick ∧ w = pingEnd I scs k := by
+  induction scs using snoc_induction with
+  | h0 => intro w hw; simp [warns, warnsFrom] at hw
+  | hs scs sc ih =>
+    intro w hw
+    rw [warns_snoc] at hw
+    rcases List.mem_append.1 hw with h | h
+    · obtain ⟨k, h1, h2, h3⟩ := ih w h
+      refine ⟨k, h1, Nat.le_trans h2 (run_tick_mono I t0 scs sc), ?_⟩
+      rw [h3, pingEnd_append_left]
+      exact Nat.le_trans h2 (run_tick_le_length I t0 scs)
+    · unfold warnStep at h
+      cases hs : (run I t0 scs).status with
+      | running =>
+        rw [hs] at h
+        simp only [] at h
+        have htick := run_running_tick I t0 scs hs
+        cases ho : observe (pingTimeout I) sc with
+        | ok d => rw [ho] at h; simp at h
+        | mnf d => rw [ho] at h; simp at h
+        | fail d =>
+          rw [ho] at h
+          simp only [] at h
+          split at h
+          · rename_i htol
+            simp only [List.mem_singleton] at h
+            have hnew : (run I t0 (scs ++ [sc])).tick = scs.length + 1 := by
+              rw [run_snoc, step_eq_stepO, ho]
+              have hlt : (run I t0 scs).fails + 1 < threshold t0 := by
+                have := (tolerated_iff ((run I t0 scs).fails + 1) (threshold t0)).1 (by exact_mod_cast htol)
+                exact this
+              simp [stepO, hs, hlt, htick]
+            refine ⟨scs.length + 1, by omega, by omega, ?_⟩
+            rw [h, htick, pingEnd_succ]
+            simp [ho, Outcome.dur]
+          · simp at h
+      | closed => rw [hs] at h; simp at h
+      | stopped => rw [hs] at h; simp at h
+
+theorem ticksBefore_mul_lt (I tc : Nat) (htc : 0 < tc) : ticksBefore I tc * I < tc := by
+  unfold ticksBefore
+  by_cases hI : I = 0
+  · simp [hI]; exact htc
+  · simp only [hI, if_false]
+    have := Nat.div_mul_le_self (tc - 1) I
+    omega
+
+/-- **cancel_stops_pings.** Whatever the peer does and whenever `Close` is called, every ping of
+the cancelled loop was sent strictly before the cancellation instant: once cancelled, the loop sends
+nothing more.  (`tc` is not a tick instant; a tick that coincides with the cancellation is a
+scheduler choice of `select` and outside the scenarios.) -/
+theorem cancel_stops_pings (I : Nat) (t0 : Int) (scs : List Script) (tc : Nat) (htc : 0 < tc) :
+    ∀ p ∈ (runCancel I t0 scs tc).pings, p < tc := by
+  intro p hp
+  have hpings : (runCancel I t0 scs tc).pings = (run I t0 (scs.take (ticksBefore I tc))).pings :=
+    ((silent_stop I t0 scs).2 tc).2.2.1
+  rw [hpings] at hp
+  obtain ⟨hpt, hlen⟩ := pings_at_ticks I t0 (scs.take (ticksBefore I tc))
+  rw [hpt] at hp
+  simp only [tickTimes, List.mem_map, List.mem_range] at hp
+  obtain ⟨j, hj, rfl⟩ := hp
+  have h1 : (run I t0 (scs.take (ticksBefore I tc))).tick ≤ ticksBefore I tc := by
+    have : (scs.take (ticksBefore I tc)).length ≤ ticksBefore I tc := by
+      rw [List.length_take]; exact Nat.min_le_left _ _
+    omega
+  have h2 : (j + 1) * I ≤ ticksBefore I tc * I := Nat.mul_le_mul_right I (by omega)
+  have := ticksBefore_mul_lt I tc htc
+  omega
+
+/-- What the peer or the transport does (or would have done) from the cancellation on is
+irrelevant: the cancelled run, its log records and its end depend only on the pings before `tc`. -/
+theorem cancel_ignores_later_outcomes (I : Nat) (t0 : Int) (scs scs' : List Script) (tc : Nat)
+    (h : scs.take (ticksBefore I tc) = scs'.take (ticksBefore I tc)) :
+    runCancel I t0 scs tc = runCancel I t0 scs' tc ∧
+      warnsCancel I t0 scs tc = warnsCancel I t0 scs' tc ∧ endAt I t0 scs tc = endAt I t0 scs' tc := by
+  unfold runCancel warnsCancel endAt
+  rw [h]
+  exact ⟨rfl, rfl, rfl⟩
+
+/-- **nothing_after_end.** `endAt` really is the end: the cancelled loop's pings, its WARN records and
+its `Close` (with the ERROR record) all happen at or before `endAt`, and `endAt` is the closing
+instant when the loop closed the session. -/
+theorem nothing_after_end (I : Nat) (t0 : Int) (scs : List Script) (tc : Nat) :
+    (∀ p ∈ (runCancel I t0 scs tc).pings, p ≤ endAt I t0 scs tc) ∧
+    (∀ w ∈ warnsCancel I t0 scs tc, w ≤ endAt I t0 scs tc) ∧
+    (∀ c, (runCancel I t0 scs tc).closeAt = some c → c = endAt I t0 scs tc) := by
+  have hsil := (silent_stop I t0 scs).2 tc
+  generalize hpre : scs.take (ticksBefore I tc) = pre at hsil
+  have hend : ∀ k, k ≤ (run I t0 pre).tick → pingEnd I pre k ≤ endAt I t0 scs tc := by
+    intro k hk
+    have h1 := pingEnd_mono I pre k _ hk
+    have h2 := pingEnd_le_endAt I t0 scs tc
+    rw [hpre] at h2
+    omega
+  refine ⟨?_, ?_, ?_⟩
+  · intro p hp
+    rw [hsil.2.2.1, (pings_at_ticks I t0 pre).1] at hp
+    simp only [tickTimes, List.mem_map, List.mem_range] at hp
+    obtain ⟨j, hj, rfl⟩ := hp
+    have := hend (j + 1) (by omega)
+    have := (pingEnd_bounds I pre (j + 1)).1
+    omega
+  · intro w hw
+    unfold warnsCancel at hw
+    rw [hpre] at hw
+    obtain ⟨k, _, h2, rfl⟩ := warns_at_ping_ends I t0 pre w hw
+    exact hend k h2
+  · intro c hc
+    rw [hsil.2.1] at hc
+    obtain ⟨_, hst⟩ := inv_run I t0 pre
+    cases hs : (run I t0 pre).status with
+    | running => rw [hs] at hst; rw [hst.2.2.1] at hc; cases hc
+    | stopped => rw [hs] at hst; obtain ⟨d, _, _, _, h4, _⟩ := hst; rw [h4] at hc; cases hc
+    | closed =>
+      rw [hs] at hst
+      obtain ⟨d, h1, h2, h3, h4, _⟩ := hst
+      rw [h4] at hc
+      injection hc with hc
+      have hne : (run I t0 (scs.take (ticksBefore I tc))).status ≠ .running := by rw [hpre, hs]; simp
+      rw [endAt_ended I t0 scs tc hne, hpre]
+      obtain ⟨j, hj⟩ : ∃ j, (run I t0 pre).tick = j + 1 := ⟨(run I t0 pre).tick - 1, by omega⟩
+      rw [hj] at h3 hc ⊢
+      simp only [Nat.add_sub_cancel, obsOf, List.getElem?_map] at h3
+      rw [pingEnd_succ]
+      cases hsc : pre[j]? with
+      | none => rw [hsc] at h3; simp at h3
+      | some sc =>
+        rw [hsc] at h3
+        simp only [Option.map_some, Option.some.injEq] at h3
+        simp [h3, Outcome.dur, ← hc]
+
+/-- **cancel_ends_promptly.** The goroutine of a cancelled loop returns at the cancellation instant
+or, when a ping was in flight then, when that ping is over — at most one ping timeout (`I/2`)
+later; it never returns before the cancellation unless it had ended by itself. -/
+theorem cancel_ends_promptly (I : Nat) (t0 : Int) (scs : List Script) (tc : Nat) (htc : 0 < tc) :
+    endAt I t0 scs tc ≤ tc + I / 2 ∧
+      ((run I t0 (scs.take (ticksBefore I tc))).status = .running → tc ≤ endAt I t0 scs tc) := by
+  have hlen : (run I t0 (scs.take (ticksBefore I tc))).tick ≤ ticksBefore I tc := by
+    have h1 := run_tick_le_length I t0 (scs.take (ticksBefore I tc))
+    have : (scs.take (ticksBefore I tc)).length ≤ ticksBefore I tc := by
+      rw [List.length_take]; exact Nat.min_le_left _ _
+    omega
+  have hb := (pingEnd_bounds I (scs.take (ticksBefore I tc)) (run I t0 (scs.take (ticksBefore I tc))).tick).2
+  have hm : (run I t0 (scs.take (ticksBefore I tc))).tick * I ≤ ticksBefore I tc * I :=
+    Nat.mul_le_mul_right I hlen
+  have := ticksBefore_mul_lt I tc htc
+  constructor
+  · by_cases h : (run I t0 (scs.take (ticksBefore I tc))).status = .running
+    · rw [endAt_running I t0 scs tc h]; omega
+    · rw [endAt_ended I t0 scs tc h]; omega
+  · intro hr
+    rw [endAt_running I t0 scs tc hr]; omega
+
 /-! ## Non-vacuity -/
 
 private def miss : Script := { kind := .answer, delay := none }
@@ -300,5 +556,14 @@ example : (run 1000 1 [⟨.mnf, some 3⟩, miss]) =
 -- cancellation between tick 1 and tick 2 (at 1700): the second miss is never pinged
 example : (runCancel 1000 2 [miss, miss] 1700).status = .stopped ∧
     (runCancel 1000 2 [miss, miss] 1700).pings = [1000] := by decide
+
+-- Close at 2407 with a silent peer (threshold 3): ping 2 (tick 2000) is in flight, is processed at
+-- 2500 (one WARN record more), and that is the end; the misses after it are never pinged
+example : (runCancel 1000 3 [ans 0, miss, miss, miss, miss] 2407).pings = [1000, 2000] ∧
+    warnsCancel 1000 3 [ans 0, miss, miss, miss, miss] 2407 = [2500] ∧
+    endAt 1000 3 [ans 0, miss, miss, miss, miss] 2407 = 2500 ∧
+    (runCancel 1000 3 [ans 0, miss, miss, miss, miss] 2407).closeAt = none := by decide
+-- Close between two ticks: the loop ends at the Close itself
+example : endAt 1000 3 [ans 0, ans 20] 2777 = 2777 := by decide
 
 end KeepAlive
